@@ -162,7 +162,7 @@ def Block.init (c : Codec) (b : Block) (o : Oti) (k blockSize sbn : Nat) : InitR
   | .rs28 | .rs28us =>
     if c.rsNewOk k o.parity then done (some (.rs k o.parity (List.replicate (k + o.parity) none) none 0 0))
     else .err
-  | .rs2m => done none       -- `log::warn!("Not implemented")`, no decoder, still `initialized = true`
+  | .rs2m => .err            -- `log::warn!("Not implemented")`: no decoder exists
   | .raptorQ =>
     match o.ss with
     | some (.rq z n al) => done (some (.rq sbn k o.e (.rq z n al) [] none))
